@@ -4,7 +4,9 @@ import SoxrModel.Vr.Model
     `double` fields travel as IEEE bit patterns).
 
     `gshl=` / `gsw=` in the answer to `vr.proc` / `vr.flush` are ghost outputs of the model (stage switches that shift a
-    negative value left: where UBSan must fire, F14; stage switches taken) — the check strips them before the diff.
+    negative value left: where UBSan fired before the repair of F14; stage switches taken), and `mis=` counts the chunks
+    in which the two cross-faded streams delivered different amounts (where the C assertion `odone == odone2` fails,
+    F35) — the check strips them before the diff.
 
     Ops: `vr.create <bits>` · `vr.ratio <bits> <slew>` · `vr.proc <ilen> <olen>` · `vr.flush <olen>` ·
          `api.set valid= sticky= nch= inited= vr= cur= r= slew=`
@@ -31,7 +33,7 @@ def fApi : ApiNum UInt64 :=
   { le0 := fun b => Float.ofBits b <= 0.0,
     close := fun a b => Float.abs (Float.ofBits a - Float.ofBits b) < eps15 }
 
-def cfg : Cfg UInt64 := { num := fNum, fixF13 := pinnedFixF13 }
+def cfg : Cfg UInt64 := { num := fNum }
 
 /-- does IEEE arithmetic agree with the exact dyadic evaluation for this ratio, for every `step_mult` there is? -/
 def oracleAgrees (b : UInt64) : Bool :=
